@@ -17,7 +17,8 @@ CROSS = {
             ("C10", "R3_search_siblings", "a swap that skips an initialised tick trades against liquidity that is not there"),
             ("C05", "R2_one_delta", "tick updates seeded with the wrong side's growth credit fees nobody paid"),
             ("C15", "R4_loaders_and_unchecked", "a tick array of another pool lets one pool's liquidity be counted in another"),
-            ("xfer", "R_cpi_builders", "deposits must arrive in the vault and only pool-signed outflows may leave it, for the amount computed")],
+            ("xfer", "R_cpi_builders", "deposits must arrive in the vault and only pool-signed outflows may leave it, for the amount computed"),
+            ("C03", "R7_amount_and_limit_wiring", "what a v2 swap pays out is what the loop computed, not what was asked for")],
     "C03": [("C16", "R4_helpers", "the limits are compared with amounts net of the Token-2022 transfer fee, which is rounded up"),
             ("C06", "R4_swap_transfers", "what is compared with the limit must be what is transferred"),
             ("C16", "R5_tlv_reader", "the fee schedule of the current epoch decides what the trader pays and receives")],
@@ -29,30 +30,40 @@ CROSS = {
             ("C15", "R5_pinocchio_superset", "a position of another pool adds liquidity to ticks of a pool it does not belong to"),
             ("C13", "R4_size_and_rent", "a dynamic array that shrinks while a tick stays initialised loses that tick's net / gross"),
             ("C13", "R5_shared_checks", "a tick booked into the wrong slot is liquidity at the wrong price"),
-            ("C12", "R3_accessors", "a partial tick update leaves stale net / gross behind")],
+            ("C12", "R3_accessors", "a partial tick update leaves stale net / gross behind"),
+            ("C13", "R3_byte_offset", "a tick read or written at the wrong byte offset is another tick's net / gross"),
+            ("pair", "manager::liquidity_manager::calculate_modify_liquidity", "the array that is grown is the array whose tick is initialised"),
+            ("C18", "R1_range_fields", "a position moved to a new range while it still holds liquidity leaves that liquidity booked in the old ticks")],
     "C07": [("C01", "R2_pay_reset", "collecting fees resets what is owed and nothing else (the checkpoint stays)"),
             ("C15", "R3_back_references", "a position settled against another pool's growth is credited fees its pool never collected"),
             ("C10", "R5_loop_cursor", "a cursor moved without a crossing leaves fee_growth_outside flipped"),
-            ("C06", "R3_booking_side", "fee growth booked on the wrong token is credited in the wrong token")],
+            ("C06", "R3_booking_side", "fee growth booked on the wrong token is credited in the wrong token"),
+            ("C06", "R4_swap_transfers", "ticks crossed by a swap whose pool update is skipped keep a flipped fee_growth_outside: a position bounded there is credited the pool's whole history")],
     "C08": [("C16", "R3_reposition_info", "the caller's maxima bound what a reposition may take, whichever way the net transfer goes"),
-            ("C02", "R5_exact_remainders", "deposits are rounded up through the same remainder tests")],
+            ("C02", "R5_exact_remainders", "deposits are rounded up through the same remainder tests"),
+            ("pair", "manager::liquidity_manager::calculate_liquidity_token_deltas", "both packagings compute the same token amounts for a liquidity delta")],
     "C09": [("C10", "R5_loop_cursor", "the tick index the swap stores with a price is the tick of that price (or the crossed tick's neighbour), computed by the one inverse"),
-            ("C08", "R1_case_split", "every price a position is valued at comes from the one tick-to-price function")],
+            ("C08", "R1_case_split", "every price a position is valued at comes from the one tick-to-price function"),
+            ("C19", "R1c_pool_initialize", "a pool is only created at a price inside the published bounds"),
+            ("C08", "R4_estimate", "range bounds are priced by the one tick-to-price function")],
     "C10": [("C13", "R5_shared_checks", "fixed and dynamic arrays must refuse the same lookups"),
             ("C05", "R5_crossing", "an initialised tick the swap reaches is crossed, whatever else the step did")],
     "C11": [("C04", "R1e_mutated_accounts_are_mut", "reward growth and timestamps that are not written back stay stale"),
             ("C18", "R1_range_fields", "re-ranging a position must keep what it is owed"),
             ("C15", "R3_back_references", "a position of another pool has no share in this pool's rewards"),
             ("C12", "R3_accessors", "the Pinocchio write-back of reward growth and its timestamp"),
-            ("C16", "R1_swap_wiring", "the v2 wrapper must hand on the accrued reward infos")],
+            ("C16", "R1_swap_wiring", "the v2 wrapper must hand on the accrued reward infos"),
+            ("C07", "R3_init_convention", "a tick initialised at or below the price takes the accrued growths as its outside value")],
     "C12": [("C13", "R5_shared_checks", "the Pinocchio lookup must serve exactly the ticks the Anchor one serves")],
-    "C13": [("C12", "R3_accessors", "a de-initialised fixed slot must be cleared as a dynamic one is")],
+    "C13": [("C12", "R3_accessors", "a de-initialised fixed slot must be cleared as a dynamic one is"),
+            ("pair", "state::tick::Tick::check_is_out_of_bounds", "both array implementations accept the same ticks, the boundary ticks included")],
     "C02": [("C06", "R8_widths", "a truncated amount is not rounded in the pool's favour, it is dropped")],
     "C14": [("C06", "R1_step_fee", "the fee charged is the scheduled total rate, not a clamped one"),
             ("C15", "R3_back_references", "the oracle is the pool's own: another account in its place switches the adaptive fee off"),
             ("C06", "R8_widths", "total rates of adaptive-fee pools exceed u16 and must reach the step computation whole"),
             ("C16", "R1_swap_wiring", "the v2 wrapper must hand on the updated adaptive-fee variables"),
-            ("C20", "R4_fee_manager_ports", "program and SDK fee managers are each other's reference")],
+            ("C20", "R4_fee_manager_ports", "program and SDK fee managers are each other's reference"),
+            ("C17", "R1_legs", "each leg of a two-hop is charged by its own pool's adaptive-fee state")],
     "C16": [("C03", "R1_threshold_table", "the trader's limit is compared with the amount net of transfer fees"),
             ("xfer", "R_cpi_builders", "checked transfers carry the mint, its decimals and - iff it has a hook - the hook accounts"),
             ("events", "R_events", "the amounts and transfer fees reported are those of the same token side")],
@@ -60,13 +71,18 @@ CROSS = {
             ("C15", "R3_back_references", "each leg's oracle is that leg's pool's own"),
             ("C03", "R1_threshold_table", "the two-hop's limit is compared with the last leg's output / the first leg's input"),
             ("C14", "R4_gates", "a leg that could not trade on its own must stop the two-hop"),
-            ("C15", "R1_token_accounts", "each leg's vaults are the vaults of that leg's pool")],
+            ("C15", "R1_token_accounts", "each leg's vaults are the vaults of that leg's pool"),
+            ("C15", "R1b_instruction_args", "the direction each leg's vault and mint constraints are evaluated with is that leg's own direction")],
     "C18": [("C04", "R4b_token_account_loader", "the frozen token account of a locked position is still a valid token account"),
-            ("C15", "R3_back_references", "a position is re-ranged against its own pool only")],
+            ("C15", "R3_back_references", "a position is re-ranged against its own pool only"),
+            ("C04", "R1e_mutated_accounts_are_mut", "a bundle whose bitmap is not written back keeps the closed position's bit")],
     "C15": [("C17", "R4_distinct_and_shared_mint", "the two pools of a two-hop are two different accounts"),
-            ("C04", "R4b_token_account_loader", "token accounts are accepted from the two token programs only, compared in full")],
+            ("C04", "R4b_token_account_loader", "token accounts are accepted from the two token programs only, compared in full"),
+            ("C04", "R3_pinocchio_labelling", "a program slot holds the program it is named after")],
     "C06": [("C04", "R1e_mutated_accounts_are_mut", "owed protocol fees that are not reset are paid again"),
-            ("C16", "R5_tlv_reader", "the input the pool books is what arrives net of the current epoch's transfer fee")],
+            ("C16", "R5_tlv_reader", "the input the pool books is what arrives net of the current epoch's transfer fee"),
+            ("C07", "R6_swap_growth_handoff", "the step's LP share is divided by the liquidity it traded against and booked before the tick is crossed"),
+            ("C17", "R3_equality_guard", "tokens a second hop does not price are taken from the trader and credited to nobody")],
     "C19": [("C16", "R5_tlv_reader", "the program's own copy of the extension numbering decides which rule a mint is held to")],
     "C20": [("C10", "R3_search_siblings", "the program side the SDK mirrors is one search, whichever array encoding serves it")],
 }
@@ -78,11 +94,25 @@ def apply(run, prop):
     lst = CROSS.get(prop, [])
     if not lst:
         return 0
-    run.title("RX", "cross-checks: " + "; ".join("%s.%s (%s)" % (m, f.split("_")[0], why) for m, f, why in lst))
+    run.title("RX", "cross-checks: " + "; ".join("%s.%s (%s)" % (m, f.split("_")[0] if m != "pair" else f.rsplit("::", 1)[-1], why) for m, f, why in lst))
     for m, f, _ in lst:
-        mod = importlib.import_module("rules.%s" % m)
-        if getattr(mod, "NEEDS_SDK", False) and run.sdk is None:
+        mod = importlib.import_module("rules.%s" % m) if m != "pair" else None
+        if mod is not None and getattr(mod, "NEEDS_SDK", False) and run.sdk is None:
             run.missing("RX", "%s.%s" % (m, f), "cross-check needs the SDK facts")
+            continue
+        if m == "pair":
+            # one Anchor ~ Pinocchio pair of C12's table, compared under this property's id
+            from rules import C12
+            pr = [x for x in C12.PAIRS if x["a"] == f]
+            if not pr:
+                run.missing("RX", "pair:" + f, "pair not in C12.PAIRS")
+                continue
+            pr = pr[0]
+            try:
+                C12.compare_pair(run, "RX", pr["a"], pr["b"], keys=pr.get("keys", C12.ALL), subs_b=pr.get("subs_b", ()), exempt=pr.get("exempt", {}),
+                                 norm_a=pr.get("na"), norm_b=pr.get("nb"), semantic=pr.get("semantic"))
+            except Exception as e:
+                run.missing("RX", "rule-crashed:pair:" + f, "%s: %s" % (type(e).__name__, e))
             continue
         try:
             if m in ("xfer", "events"):
